@@ -4,6 +4,7 @@ import (
 	"fmt"
 	"math/rand/v2"
 	"sort"
+	"strconv"
 	"strings"
 	"sync"
 	"time"
@@ -12,6 +13,7 @@ import (
 	"github.com/lugu/qiloop/bus"
 	"github.com/lugu/qiloop/bus/directory"
 	"github.com/lugu/qiloop/bus/services"
+	"github.com/lugu/qiloop/bus/util"
 	probe "github.com/lugu/qiloop/zzprobe"
 
 	"qsimharness/core"
@@ -118,8 +120,18 @@ type c15state struct {
 }
 
 // c15digest is what the model remembers of an info besides name and id.
+// The directory's own entry carries this process's machine identifier and
+// process number, which no two processes share: they are named, not printed,
+// so that a run reads the same in every process.
 func c15digest(i services.ServiceInfo) string {
-	return fmt.Sprintf("%s/%s/%d/%s/%s", strings.Join(i.Endpoints, "+"), i.MachineId, i.ProcessId, i.SessionId, i.ObjectUid)
+	machine, process := i.MachineId, strconv.FormatUint(uint64(i.ProcessId), 10)
+	if machine == util.MachineID() {
+		machine = "this-machine"
+	}
+	if i.ProcessId == util.ProcessID() {
+		process = "this-process"
+	}
+	return fmt.Sprintf("%s/%s/%s/%s/%s", strings.Join(i.Endpoints, "+"), machine, process, i.SessionId, i.ObjectUid)
 }
 
 func c15info(name string) services.ServiceInfo {
